@@ -9,6 +9,7 @@ use graphql_tools::static_graphql::query as q;
 
 pub fn schema_pool() -> Vec<SchemaInfo> {
     let mut v: Vec<SchemaInfo> = schemas::pool().iter().map(|(n, s)| SchemaInfo::new(n, s)).collect();
+    v.push(crate::families::synth_schema());
     v.push(SchemaInfo::new("knows_nothing", schemas::KNOWS_NOTHING));
     v
 }
@@ -165,6 +166,10 @@ pub fn cases_for(prop: &str, tier: &str, seed: u64, shard: (usize, usize)) -> (V
             }
             let n = budget(tier, 1600, 40000) / shard.1;
             family_random_docs(&mut cases, &pool, &mut rng, n, "trace", &format!("t{}x", shard.0), true);
+            for mut c in exhaustive_family(prop, tier, &mut rng, shard, &pool) {
+                c.op = "trace".into();
+                cases.push(c);
+            }
         }
         "C13" => {
             let n = budget(tier, 1200, 30000) / shard.1;
@@ -195,6 +200,21 @@ pub fn cases_for(prop: &str, tier: &str, seed: u64, shard: (usize, usize)) -> (V
                 for (id, sname, doc) in corpus_docs() {
                     let si = pool.iter().position(|s| s.name == sname).unwrap();
                     tmp.push(Case { id: format!("corpus-{}", id), family: "corpus".into(), schema: si, op: "validate".into(), doc: Some(doc.to_string()), extra: vec![], note: String::new() });
+                }
+            }
+            tmp.extend(exhaustive_family(prop, tier, &mut rng, shard, &pool));
+            if prop == "C06" || prop == "C05" {
+                let minimal = pool.iter().position(|s| s.name == "minimal").unwrap();
+                let mut idx = 0usize;
+                for k in 1..=3usize {
+                    for edges in 0..(1u32 << (k * k)) {
+                        idx += 1;
+                        if idx % shard.1 != shard.0 || (tier != "thorough" && k == 3 && !rng.pct(25)) {
+                            continue;
+                        }
+                        let doc = cyclic_doc(k, edges, rng.below(5), rng.below(3), rng.below(3), rng.below(8) as u32).print();
+                        tmp.push(Case { id: format!("g{}x{}", shard.0, idx), family: format!("fragment-graph-{}", k), schema: minimal, op: "validate".into(), doc: Some(doc), extra: vec![], note: String::new() });
+                    }
                 }
             }
             for mut c in tmp {
@@ -659,4 +679,121 @@ pub fn run_rewrite(si: &SchemaInfo, doc: &q::Document, extra: &[String]) -> Vec<
     let same_rules = a[2..] == b[2..];
     vec![a, b, format!("VERDICT {}", if same_verdict { "same" } else { "DIFF" }),
          format!("RULES {}", if !rules_relevant { "n/a" } else if same_rules { "same" } else { "DIFF" })]
+}
+
+/// bounded-exhaustive families over the synthetic schema, for the rule properties
+pub fn exhaustive_family(prop: &str, tier: &str, rng: &mut Rng, shard: (usize, usize), pool: &[SchemaInfo]) -> Vec<Case> {
+    use crate::families::*;
+    let synth = pool.iter().position(|s| s.name == "synthetic").unwrap();
+    let mut docs: Vec<(String, String)> = vec![]; // (family, text)
+    match prop {
+        "C08" | "C16" | "C15" => {
+            let lits = literal_pool(tier == "thorough");
+            let mut all = vec![];
+            for b in BASES {
+                for k in 0..SHAPES.len() {
+                    for (li, _) in lits.iter().enumerate() {
+                        for pos in 0..6 {
+                            all.push((*b, k, li, pos));
+                        }
+                    }
+                }
+            }
+            let n = budget(tier, if prop == "C08" { 6000 } else { 1500 }, all.len());
+            for (b, k, li, pos) in pick_sample(all, n, rng) {
+                if let Some(d) = literal_case(b, k, &lits[li], pos) {
+                    docs.push((format!("literal-pairs:pos{}", pos), d.print()));
+                }
+            }
+        }
+        "C07" => {
+            let mut all = vec![];
+            for vb in BASES {
+                for vk in 0..SHAPES.len() {
+                    for dk in 0..3 {
+                        for lk in 0..SHAPES.len() {
+                            for ld in [false, true] {
+                                for pos in 0..3 {
+                                    // same base type mostly; a different base now and then
+                                    all.push((*vb, vk, dk, *vb, lk, ld, pos));
+                                }
+                            }
+                        }
+                    }
+                }
+            }
+            for vb in ["Int", "String", "Color"] {
+                for lb in ["Float", "ID", "Date", "Int"] {
+                    for vk in 0..4 {
+                        for lk in 0..4 {
+                            all.push((vb, vk, 0, lb, lk, false, 0));
+                        }
+                    }
+                }
+            }
+            let n = budget(tier, 5000, all.len());
+            for (vb, vk, dk, lb, lk, ld, pos) in pick_sample(all, n, rng) {
+                if let Some(d) = variable_case(vb, vk, dk, lb, lk, ld, pos) {
+                    docs.push((format!("variable-tuples:pos{}", pos), d.print()));
+                }
+            }
+            // the same variable at two locations
+            let mut two = vec![];
+            for vb in ["Int", "Point", "Color"] {
+                for vk in 0..4 {
+                    for dk in 0..3 {
+                        for l1 in 0..4 {
+                            for l2 in 0..4 {
+                                for d1 in [false, true] {
+                                    for d2 in [false, true] {
+                                        for split in [false, true] {
+                                            two.push((vb, vk, dk, l1, d1, l2, d2, split));
+                                        }
+                                    }
+                                }
+                            }
+                        }
+                    }
+                }
+            }
+            for (vb, vk, dk, l1, d1, l2, d2, split) in pick_sample(two, budget(tier, 2500, 100000), rng) {
+                if let Some(d) = two_usages_case(vb, vk, dk, l1, d1, l2, d2, split) {
+                    docs.push(("variable-two-usages".to_string(), d.print()));
+                }
+            }
+        }
+        "C11" => {
+            for d in subscription_roots() {
+                docs.push(("subscription-roots".to_string(), d.print()));
+            }
+        }
+        "C05" => {
+            for d in merge_cases(rng, budget(tier, 1500, 40000)) {
+                docs.push(("merge-structured".to_string(), d.print()));
+            }
+        }
+        "C10" => {
+            for d in SYNTH_DIRECTIVES {
+                for loc in 0..7 {
+                    for mult in 1..=3 {
+                        for nest in 0..3 {
+                            docs.push(("directive-placement".to_string(), directive_case(d, loc, mult, nest).print()));
+                        }
+                    }
+                }
+            }
+        }
+        "C06" => {
+            // fragment graphs (documents for the `minimal` schema): handled by the caller
+        }
+        _ => {}
+    }
+    let mut out = vec![];
+    for (i, (fam, text)) in docs.into_iter().enumerate() {
+        if i % shard.1 != shard.0 {
+            continue;
+        }
+        out.push(Case { id: format!("e{}x{}", shard.0, i), family: fam, schema: synth, op: "validate".into(), doc: Some(text), extra: vec![], note: String::new() });
+    }
+    out
 }
